@@ -53,7 +53,9 @@ deriving DecidableEq, Repr
 
 structure GridFun where
   grid : Grid
-  /-- `space.identifier == "p1"` -/
+  /-- `space.identifier == "p1"`, the comparison `export` makes to default to node data.  (No space of the library
+  carries that identifier — P1 is `"p1_continuous"` — so on real spaces this flag is always `false`; the harness
+  reads the compared string from the source and also drives the branch with a stub space.) -/
   isP1 : Bool
   /-- `evaluate_on_vertices()` -/
   vertexValues : CMat
@@ -189,7 +191,7 @@ def SetOrderSpec (setOrder : List Nat → List Nat) : Prop :=
 
 def int32s (l : List Nat) : List Int := l.map fun (d : Nat) => toInt32 (d : Int)
 
-/-- default `data_type`: `"node"` for P1 spaces, `"element"` otherwise -/
+/-- default `data_type`: `"node"` if the space identifier is the tested string, `"element"` otherwise -/
 def defaultDataType (dt : DataType) (gf : Option GridFun) : DataType :=
   match dt, gf with
   | .unset, some f => if f.isP1 then .node else .element
